@@ -816,3 +816,101 @@ def prov5(ctx, pid):
         ctx.ok("lookup:TrieFrontierCache.get", g.loc(), "get(prefix) is cache[Nibbles(prefix)]", nontrivial=False)
     else:
         ctx.bad("lookup:TrieFrontierCache.get", g.loc(), "get() returns `%s`" % "; ".join(tstr(r)[:50] for r in rets))
+
+
+@rule("PROV1b", ["C11"])
+def prov1b(ctx, pid):
+    """Decision tables of nearest_unknown / nearest_right and the distance helper."""
+    eng = S(ctx)
+    unexpl = ("attr", ("self",), "_unexplored_prefixes")
+    # ---- nearest_right
+    f = ctx.P.func(FOG + ".nearest_right")
+    key = ("call", "ctor:trie.typing:Nibbles", (("p", f.params[1]),), ())
+    idx = ("call", "m:bisect", (unexpl, key), ())
+    left = ("sub", unexpl, ("bin", "-", idx, C(1)))
+    rows = {}
+    for p, st in pq.states(ctx, f):
+        if p.exit[0] != "return":
+            continue
+        zero = None
+        within = None
+        for t, pol, _ in st.log:
+            r = rel_norm(t, pol)
+            if r and r[1] == idx and r[2] == C(0) and r[0] in ("==", "!="):
+                zero = r[0] == "=="
+            tt, pp = truth_norm(t, pol)
+            if tt == ("call", "trie.utils.nodes:key_starts_with", (key, left), ()):
+                within = pp
+        case = "index0" if zero else ("covered" if within else "not-covered" if within is False else "?")
+        rows.setdefault(case, set()).add(st.ret)
+    want = {"index0": {("sub", unexpl, C(0))}, "covered": {left}, "not-covered": {("sub", unexpl, idx)}}
+    c = "table:HexaryTrieFog.nearest_right"
+    if rows == want:
+        ctx.ok(c, f.loc(), "bisect index 0 -> first prefix; key inside the prefix on its left -> that prefix; otherwise the prefix at the bisect index")
+    else:
+        ctx.bad(c, f.loc(), "nearest_right table is %s" % {k: sorted(tstr(x)[:50] for x in v) for k, v in rows.items()},
+                witness={"expected": {k: sorted(tstr(x) for x in v) for k, v in want.items()}})
+    # ---- nearest_unknown
+    g = ctx.P.func(FOG + ".nearest_unknown")
+    key = ("call", "ctor:trie.typing:Nibbles", (("p", g.params[1]),), ())
+    idx = ("call", "m:bisect", (unexpl, key), ())
+    left = ("sub", unexpl, ("bin", "-", idx, C(1)))
+    right = ("sub", unexpl, idx)
+    dist = FOG + "._prefix_distance"
+    ld = ("call", dist, (("self",), left, key), ())
+    rd = ("call", dist, (("self",), key, right), ())
+    rows = {}
+    for p, st in pq.states(ctx, g):
+        if p.exit[0] != "return":
+            continue
+        case = "?"
+        for t, pol, _ in st.log:
+            r = rel_norm(t, pol)
+            if r and r[1] == idx and r[2] == C(0) and r[0] == "==":
+                case = "index0"
+            elif r and r[0] == "==" and {r[1], r[2]} == {idx, ("len", unexpl)}:
+                case = "past-end"
+            elif r and r[0] in (">", ">=") and {r[1], r[2]} == {ld, rd}:
+                # normalised to (op, bigger, smaller)
+                if r[0] == ">" and r[1] == rd:
+                    case = "left-closer"
+                elif r[0] == ">=" and r[1] == ld:
+                    case = "right-closer-or-tie"
+                else:
+                    case = "distance:%s %s %s" % (tstr(r[1])[:20], r[0], tstr(r[2])[:20])
+        rows.setdefault(case, set()).add(st.ret)
+    want = {"index0": {("sub", unexpl, C(0))}, "past-end": {("sub", unexpl, C(-1))}, "left-closer": {left}, "right-closer-or-tie": {right}}
+    c = "table:HexaryTrieFog.nearest_unknown"
+    if rows == want:
+        ctx.ok(c, g.loc(), "index 0 -> first; index == len -> last; else the left neighbour iff distance(left, key) < distance(key, right), ties go right")
+    else:
+        ctx.bad(c, g.loc(), "nearest_unknown table is %s" % {k: sorted(tstr(x)[:50] for x in v) for k, v in rows.items()},
+                witness={"expected": {k: sorted(tstr(x) for x in v) for k, v in want.items()}})
+    # ---- _prefix_distance: zip_longest, missing low nibble = 15, missing high nibble = 0, yields high - low
+    h = ctx.P.func(dist)
+    lo, hi = ("p", h.params[0]), ("p", h.params[1])
+    zl = ("call", "ext:itertools.zip_longest", (lo, hi), (("fillvalue", C(None)),))
+    rows = {}
+    for p, st in pq.states(ctx, h, unroll=1):
+        ys = [ev for ev in st.events if ev.k == "yield"]
+        if not ys:
+            continue
+        it = ("iter", zl, 0)
+        ln, hn = ("sub", it, C(0)), ("sub", it, C(1))
+        lnone = st.facts.none.get(ln)
+        hnone = st.facts.none.get(hn)
+        yt = eng.ev(ys[0].node.value, h, st)
+        rows[(lnone, hnone)] = yt
+    want = {(True, True): ("bin", "-", C(0), C(15)) if False else C(-15), (True, False): None, (False, True): None, (False, False): None}
+    okd = True
+    for (ln_, hn_), yt in rows.items():
+        it = ("iter", zl, 0)
+        l_t = C(15) if ln_ else ("sub", it, C(0))
+        h_t = C(0) if hn_ else ("sub", it, C(1))
+        if yt != eng.mk_bin("-", h_t, l_t):
+            okd = False
+    c = "metric:HexaryTrieFog._prefix_distance"
+    if okd and len(rows) == 4:
+        ctx.ok(c, h.loc(), "per position: high - low with a missing low nibble read as 15 and a missing high nibble as 0 (zip_longest)")
+    else:
+        ctx.bad(c, h.loc(), "_prefix_distance yields %s" % {str(k): tstr(v)[:40] for k, v in rows.items()})
